@@ -117,6 +117,16 @@ PROPS["C20"] = {
     "explanation": "lock balance on every path", "assumptions": ["single-thread lock model: double release raises, re-acquire while held is reported as would-block"],
 }
 
+PROPS["C19"] = {
+    "modules": ["harness.c19"], "level": "model_checking", "design_ref": "DESIGN.md 2/C19",
+    "level_text": "Every public operation of the Neo4j backend classes that talks to the driver (discovered by introspection) runs on a stand-in driver; "
+                  "value arguments are symbolic strings, and a Cypher lexer running on the symbolic statement text decides that the statement skeleton is the "
+                  "same for every value, every literal decodes to the value that produced it and other values travel as parameters; the value-independent text is "
+                  "checked for balance, template residue, parameter use and variable binding.",
+    "level_note": XH_NOTE + " Value strings of length 1 (quick) and 2 (thorough); what the server does with a statement is outside (no server exists here).",
+    "explanation": "Cypher statement data independence + well-formedness", "assumptions": ["neo4j driver replaced by a recording stand-in"],
+}
+
 NOT_APPLICABLE = {
     "C01": "every value on the GraphML/JSON text path crosses expat/lxml/json C code and temp files, where a symbolic value is "
            "concretised; what remains would be concrete sampling, i.e. a different technique (store-level half is decided under C04/C20)",
